@@ -78,6 +78,7 @@ StructStmts == {
   Stmt(PM("rm"), SubLit("1")), Stmt(PM("rm"), Msg(<<MF("y", Str("b"))>>)),
   Stmt(PM("mp"), Msg(<<MF("key", Str("a")), MF("value", Int("1"))>>)),
   Stmt(PM("mp"), Msg(<<MF("key", Str("b")), MF("value", Int("2"))>>)),
+  Stmt(PM("mm"), Msg(<<MF("key", Str("a")), MF("value", SubLit("1"))>>)),
   Stmt(<<M, NP("grp", FALSE), NP("g", FALSE)>>, Int("1")), Stmt(PM("grp"), Msg(<<MF("g", Int("2"))>>)),
   Stmt(<<M, NP("oext", TRUE)>>, Int("1")), Stmt(<<M>>, Msg(<<MFx("oext", Int("2"))>>)),
   Stmt(<<M, NP("osub", TRUE), NP("x", FALSE)>>, Int("1")),
@@ -130,7 +131,9 @@ TargetStmts == {
 StripSeq(k) == << Stmt(P1("x_int32"), Int("1")), Stmt(P1("x_string"), Str("s")),
                   Stmt(PM("f_int32"), Int("1")), Stmt(PM("f_string"), Str("a")),
                   Stmt(PMS("x"), Int("1")), Stmt(PMS("y"), Str("a")),
-                  Stmt(PM("rm"), Msg(<<MF("x", Int("1")), MF("y", Str("b"))>>)), Stmt(PM("rm"), Msg(<<MF("y", Str("c"))>>)) >> \o
+                  Stmt(PM("rm"), Msg(<<MF("x", Int("1")), MF("y", Str("b"))>>)), Stmt(PM("rm"), Msg(<<MF("y", Str("c"))>>)),
+                  Stmt(PM("mm"), Msg(<<MF("key", Str("a")), MF("value", Msg(<<MF("x", Int("1")), MF("y", Str("b"))>>))>>)),
+                  Stmt(PM("mm"), Msg(<<MF("key", Str("b")), MF("value", Msg(<<MF("y", Str("c"))>>))>>)) >> \o
                (IF \E f \in StdTop(k) : f.n = "deprecated" THEN << Stmt(<<NP("deprecated", FALSE)>>, Id("true")) >> ELSE <<>>)
 Rets == {"unset", "RUNTIME", "SOURCE"}
 RetAssignments == { r \in [RetIds -> Rets] : Cardinality({i \in RetIds : r[i] # "unset"}) <= MaxRet }
@@ -161,7 +164,7 @@ RECURSIVE Populated(_, _, _)
 Populated(mt, es, k) ==
   UNION { LET f == FieldByEntry(mt, k, es[i].n) IN
           {f.id} \cup (IF f.t \in {"msg", "grp"} /\ f.card = "one" THEN Populated(f.mt, es[i].v.fs, k)
-                       ELSE IF f.t = "msg" /\ f.card = "rep"
+                       ELSE IF (f.t = "msg" /\ f.card = "rep") \/ f.card = "map"
                        THEN UNION { Populated(f.mt, es[i].v.fs[j].v.fs, k) : j \in 1..Len(es[i].v.fs) }
                        ELSE {})
           : i \in 1..Len(es) }
@@ -228,7 +231,7 @@ NoSource(mt, es, k) ==
     LET f == FieldByEntry(mt, k, es[i].n) IN
     /\ RetOf(f, sch) # "SOURCE"
     /\ (f.t \in {"msg", "grp"} /\ f.card = "one") => NoSource(f.mt, es[i].v.fs, k)
-    /\ (f.t = "msg" /\ f.card = "rep") => \A j \in 1..Len(es[i].v.fs) : NoSource(f.mt, es[i].v.fs[j].v.fs, k)
+    /\ ((f.t = "msg" /\ f.card = "rep") \/ f.card = "map") => \A j \in 1..Len(es[i].v.fs) : NoSource(f.mt, es[i].v.fs[j].v.fs, k)
 StripSane ==
   LET s == StripTop(acc, kind, sch) IN
   /\ StripTop(s.es, kind, sch).es = s.es
